@@ -119,5 +119,17 @@ class LossyDB(dict):
             return default
         return super().get(key, default)
 
+    def __delitem__(self, key):
+        if key in self.hidden:
+            raise KeyError(key)
+        super().__delitem__(key)
+
+    def pop(self, key, *default):
+        if key in self.hidden:
+            if default:
+                return default[0]
+            raise KeyError(key)
+        return super().pop(key, *default)
+
     def visible(self):
         return {k: v for k, v in dict.items(self) if k not in self.hidden}
